@@ -783,6 +783,11 @@ func c19merge(c *Ctx, id string, rng *rand.Rand, bs []*model.Batch) {
 		for n := 1; n <= calls[op]; n++ {
 			tag := fmt.Sprintf("%s merge with %s call %d/%d failing", id, op, n, calls[op])
 			os.Remove(path)
+			if (n+len(op))%2 == 0 {
+				// the destination already exists as an empty file (a reserved name)
+				os.WriteFile(path, nil, 0600)
+				c.R.Inc("engine_faults_with_preexisting_empty_destination", 1)
+			}
 			faiss.SetFaultPlan(map[string]map[int]bool{op: {n: true}})
 			guard(c.R, tag, func() {
 				_, _, err := zx.Merge(ins, bm, path, nil, nil)
@@ -843,6 +848,10 @@ func c18engineCancel(c *Ctx, id string, p *c18plan, ins []segment.Segment, bm []
 	}
 	for j := 1; j <= total; j++ {
 		os.Remove(path)
+		if j%3 == 2 {
+			os.WriteFile(path, nil, 0600)
+			c.R.Inc("cancels_with_preexisting_empty_destination", 1)
+		}
 		ch := make(chan struct{})
 		seen := 0
 		var at string
